@@ -9,7 +9,7 @@ Separate Extraction
   Mini.Sem.valid_b Mini.Sem.blame_program Mini.Sem.check_program
   Mini.Gen.gen_raw Mini.Gen.gen_program Mini.Gen.gen_fell_back
   Mini.Print.print_program Mini.Print.layout
-  Mini.Walk.walk_program Mini.Walk.max_nid Mini.Walk.find_phrase
+  Mini.Walk.walk_program Mini.Walk.max_nid Mini.Walk.find_phrase Mini.Walk.nodup_nids
   Mini.Faults.plant Mini.Faults.site_candidates Mini.Faults.eligible Mini.Faults.eligible_at Mini.Faults.lit_candidates
   Mini.Faults.obj_candidates Mini.Faults.phrase_root Mini.Faults.amap_formals Mini.Faults.expect Mini.Faults.all_fclasses
   Mini.Faults.unit_key Mini.Faults.unit_deps Mini.Faults.site_nid Mini.Faults.dup_sites Mini.Faults.occs_program
